@@ -345,6 +345,13 @@ def gen_multibuf(rng, out_start=False):
         ic["buffer"].append({"name": "b-3", "type": "flex_buffer", "capacity": nj + 1})
         stores["b-3"] = []
         places.append("b-3")
+    if rng.random() < 0.4:
+        # a SECOND output buffer at other distances: finished jobs go to the first one, and pay the travel time to it
+        names.append("b-4")
+        n = len(names)
+        mat = [[(0 if a == b else rng.randint(1, 9)) for b in range(n)] for a in range(n)]
+        ic["logistics"]["specification"] = matrix_text(names, mat)
+        ic["buffer"].append({"name": "b-4", "type": "flex_buffer", "capacity": nj + 1, "role": "output"})
     in_out = set(rng.sample(range(nj), rng.randint(1, min(2, nj - 1)))) if out_start else set()
     for j in range(nj):
         b = "b-2" if j in in_out else rng.choice(places)
